@@ -88,6 +88,7 @@ def c18_live(model, meta):
     before_b, before_me = snapshot(bpid), snapshot(os.getpid())
     op = model["op"]
     problems = []
+    known_tag = None
     try:
         if op == "nice":
             v = model["value"]
@@ -134,11 +135,14 @@ def c18_live(model, meta):
                 problems.append("a level without a class changed the kernel value")
         elif op == "affinity":
             cpus = model["cpus"]
+            prev = sorted(os.sched_getaffinity(cpid))
             p.cpu_affinity(cpus)
             want = sorted(set(cpus)) if cpus else model["eligible"]
             got, k = p.cpu_affinity(), sorted(os.sched_getaffinity(cpid))
             if not (got == want == k):
                 problems.append(f"cpu_affinity({cpus}): want {want}, get {got}, kernel {k}")
+                if not cpus and got == k == prev and prev != want:
+                    known_tag = "empty-list-keeps-a-narrowed-mask"
         elif op == "affinity_bad":
             prev = sorted(os.sched_getaffinity(cpid))
             try:
@@ -183,7 +187,7 @@ def c18_live(model, meta):
     if snapshot(os.getpid()) != before_me:
         problems.append("the calling process changed")
     return {"env": {}, "result": problems, "exc": None, "verdict": bool(problems), "expected": [],
-            "tag": problems[0][:120] if problems else None}
+            "tag": (known_tag if known_tag and len(problems) == 1 else problems[0][:120]) if problems else None}
 
 
 @search("c18:live")
@@ -203,6 +207,10 @@ def c18_live_search(meta, seed, budget):
     for lvl in (0, 1, 7):
         yield {"op": "ionice_noclass", "level": lvl}
     yield {"op": "affinity", "cpus": [], "eligible": elig}
+    if len(elig) > 1:
+        yield {"op": "affinity", "cpus": elig[-2:] if len(elig) > 2 else elig[-1:], "eligible": elig}
+        yield {"op": "affinity", "cpus": [], "eligible": elig}          # [] after a narrower mask
+        yield {"op": "affinity", "cpus": elig, "eligible": elig}
     for c in elig:
         yield {"op": "affinity", "cpus": [c], "eligible": elig}
     for a, b in itertools.combinations(elig, 2):
